@@ -109,6 +109,45 @@ record `[""]` after two of the four lines. -/
 example : feedLines (callFirst ⟨0x2c, 0x0a⟩) (callNext ⟨0x2c, 0x0a⟩)
     (splitAfterLF (serialize ⟨0x2c, 0x0a⟩ [[0x0a]])) = (some (false, [[]]), [[0x0a], [0x0a]]) := by decide +kernel
 
+/-- **csv_args_total**: `deserialize`, `deserialize_next` and `deserialize_chunk` with ANY parser state, ANY field
+table (empty, after an error, after `deserialize("")`) and ANY line return a result: `back()` / `pop_back()` are never
+applied to an empty vector. -/
+theorem csv_args_total (cfg : Cfg) (ps : PState) (next : Bool) (out : Row) (line : List UInt8) :
+    deserializeChunk cfg ps next out line ≠ .hazardEmptyBack
+    ∧ deserialize cfg ps line ≠ .hazardEmptyBack ∧ deserializeNext cfg ps out line ≠ .hazardEmptyBack := by
+  have key : ∀ (ps : PState) (next : Bool) (out : Row), deserializeChunk cfg ps next out line ≠ .hazardEmptyBack := by
+    intro ps next out
+    unfold deserializeChunk
+    cases line with
+    | nil => simp
+    | cons x xs =>
+      simp only []
+      split
+      · rename_i h
+        cases hq : out.getLast? with
+        | none => exact absurd (List.getLast?_eq_none_iff.mp hq) h.2
+        | some v => simp only [finish]; split <;> simp
+      · simp only [finish]; split <;> simp
+  exact ⟨key ps next out, key _ false [], key ps true out⟩
+
+/-- **csv_next_empty_table**: `deserialize_next` on an EMPTY field table (fresh table, after a parse error, after
+`deserialize("")`) treats a non-empty line as the start of a record: the same fields and the same "needs more" flag
+as `deserialize_chunk(false, …)` — i.e. as `deserialize`, except that `m_error` is not reset. -/
+theorem csv_next_empty_table (cfg : Cfg) (ps : PState) (line : List UInt8) (hl : line ≠ []) :
+    deserializeNext cfg ps [] line = deserializeChunk cfg ps false [] line
+    ∧ deserializeNext cfg { ps with error := false } [] line = deserialize cfg ps line := by
+  cases line with
+  | nil => exact absurd rfl hl
+  | cons x xs => simp [deserializeNext, deserialize, deserializeChunk]
+
+/-- the former hazard witnesses: `deserialize_next("a")` on the empty table gives the field `a`; after the parse
+error of `a"` (table cleared) the next line `a` starts a record -/
+example : deserializeNext ⟨0x2c, 0x22⟩ {} [] [0x61] = .done false [[0x61]] {} ∧
+    deserialize ⟨0x2c, 0x22⟩ {} [0x61, 0x22] = .done false [] { error := true, errorPos := 2 } ∧
+    deserializeNext ⟨0x2c, 0x22⟩ { error := true, errorPos := 2 } [] [0x61]
+      = .done false [[0x61]] { error := true, errorPos := 2 } ∧
+    deserializeNext ⟨0x2c, 0x22⟩ {} [] [0x22, 0x61] = .done true [[0x61]] {} := by decide +kernel
+
 /-! ## utf8
 
 In this module a "code point" is the character's UTF-8 byte sequence packed big-endian into a 32-bit
@@ -157,21 +196,32 @@ theorem utf8_count_agrees (cps : List Nat) (h : ValidCps cps) :
     pluginCount (ofBytes (encodeAll cps)) = cps.length := by
   rw [decode_valid_agrees_partial cps h]; simp [pluginCount, size]
 
-/-- **utf8_at_agrees**: inside the string `at` is the list's element (packed); at or beyond the end —
-which includes every negative argument — it is an unchecked out-of-bounds read; null is a BLOC error. -/
+/-- **utf8_at_agrees**: inside the string `at` is the list's element (packed); at or beyond the end, and for every
+negative argument, it is the BLOC error INDEX_RANGE; null is the BLOC error "Invalid arguments". -/
 theorem utf8_at_agrees (cps : List Nat) (h : ValidCps cps) (a0 : Option Int64) :
     pluginAt (ofBytes (encodeAll cps)) a0 =
       match a0 with
       | none => .invalidArgs
-      | some i => match cps[toSizeT i]? with
-        | some c => .ok (pack c)
-        | none => .hazardOob := by
+      | some i => if 0 ≤ i.toInt then
+          match cps[i.toInt.toNat]? with
+          | some c => .ok (pack c)
+          | none => .indexRange
+        else .indexRange := by
   rw [decode_valid_agrees_partial cps h]
   cases a0 with
   | none => rfl
   | some i =>
-    simp only [pluginAt, List.getElem?_map]
-    cases cps[toSizeT i]? <;> rfl
+    simp only [pluginAt, size, List.length_map]
+    by_cases hneg : i.toInt < 0
+    · simp [hneg, show ¬ 0 ≤ i.toInt by omega]
+    · have hpos : 0 ≤ i.toInt := by omega
+      have hsz : toSizeT i = i.toInt.toNat := toSizeT_of_nonneg i hpos
+      simp only [hneg, false_or, hpos, if_true, hsz]
+      generalize i.toInt.toNat = N
+      by_cases hlt : cps.length ≤ N
+      · simp [hlt, List.getElem?_eq_none hlt]
+      · have hlt' : N < cps.length := by omega
+        simp [hlt, List.getElem?_map, List.getElem?_eq_getElem hlt']
 
 /-- **utf8_substr_agrees**: for every position and count (no side condition) `substr` is the encoding of
 `drop pos |> take n`; in particular the empty string from the end on. -/
@@ -230,14 +280,27 @@ theorem utf8_insert_agrees (cps : List Nat) (h : ValidCps cps) (pos c : Nat) (hc
   rw [(uString_pack c hc).1, parseFirst_encode c hc hc0]
   simp [hle, lInsert, (uString_pack c hc).2]
 
-/-- **utf8_args_total**: with any argument — null, negative, huge — count, substr, remove, insert and
-string() return a value or the BLOC error "Invalid arguments"; `at` alone can reach an out-of-bounds
-access, exactly when the (unsigned) position is not inside the string. Holds for every string state. -/
+/-- **utf8_args_total**: with any argument — null, negative, huge — count, at, substr, remove, insert and string()
+return a value or a BLOC error ("Invalid arguments", INDEX_RANGE): no method can reach an out-of-bounds access.
+Holds for every string state. `at` answers INDEX_RANGE exactly when the position is negative or not inside the string. -/
 theorem utf8_args_total (s : UStr) (a0 a1 : Option Int64) (o : Option UStr) :
+    pluginAt s a0 ≠ .hazardOob ∧
     pluginSubstr1 s a0 ≠ .hazardOob ∧ pluginSubstr2 s a0 a1 ≠ .hazardOob ∧ pluginRemove s a0 a1 ≠ .hazardOob ∧
     pluginInsert s a0 a1 ≠ .hazardOob ∧ pluginInsertC s a0 o ≠ .hazardOob ∧
-    (pluginAt s a0 = .hazardOob ↔ ∃ i, a0 = some i ∧ size s ≤ toSizeT i) := by
-  refine ⟨?_, ?_, ?_, ?_, ?_, ?_⟩
+    (pluginAt s a0 = .indexRange ↔ ∃ i, a0 = some i ∧ (i.toInt < 0 ∨ size s ≤ toSizeT i)) := by
+  refine ⟨?_, ?_, ?_, ?_, ?_, ?_, ?_⟩
+  · cases a0 with
+    | none => simp [pluginAt]
+    | some i =>
+      simp only [pluginAt]
+      split
+      · simp
+      · rename_i hc
+        cases hq : s.store[toSizeT i]? with
+        | none =>
+          have := List.getElem?_eq_none_iff.mp hq
+          exact absurd (Or.inr this) hc
+        | some u => simp
   · cases a0 <;> simp [pluginSubstr1]
   · cases a0 <;> cases a1 <;> simp [pluginSubstr2]
   · cases a0 <;> cases a1 <;> simp [pluginRemove]
@@ -246,16 +309,17 @@ theorem utf8_args_total (s : UStr) (a0 a1 : Option Int64) (o : Option UStr) :
   · cases a0 with
     | none => simp [pluginAt]
     | some i =>
-      simp only [pluginAt, size, Option.some.injEq, exists_eq_left']
-      cases hq : s.store[toSizeT i]? with
-      | none => simpa [List.getElem?_eq_none_iff] using hq
-      | some u =>
-        have := (List.getElem?_eq_some_iff.mp hq).1
-        simp; omega
+      simp only [pluginAt, Option.some.injEq, exists_eq_left']
+      split
+      · rename_i hc; simp [hc]
+      · rename_i hc
+        cases hq : s.store[toSizeT i]? <;> simp [hc]
 
-/-- The out-of-bounds `at` is reachable: `utf8("abc").at(-1)` and `.at(3)`. -/
-example : pluginAt (ofBytes [0x61, 0x62, 0x63]) (some (-1)) = .hazardOob ∧
-    pluginAt (ofBytes [0x61, 0x62, 0x63]) (some 3) = .hazardOob ∧
+/-- The former out-of-bounds `at` is a BLOC error: `utf8("abc").at(-1)`, `.at(3)`, `.at(INT64_MIN)`; inside it still answers. -/
+example : pluginAt (ofBytes [0x61, 0x62, 0x63]) (some (-1)) = .indexRange ∧
+    pluginAt (ofBytes [0x61, 0x62, 0x63]) (some 3) = .indexRange ∧
+    pluginAt (ofBytes [0x61, 0x62, 0x63]) (some (-9223372036854775808)) = .indexRange ∧
+    pluginAt (ofBytes [0x61, 0x62, 0x63]) none = .invalidArgs ∧
     pluginAt (ofBytes [0x61, 0x62, 0x63]) (some 2) = .ok 0x63 := by decide +kernel
 
 end utf8
